@@ -74,6 +74,8 @@ def r_reader(ctx, prog, rule="R-READER"):
 
 
 def run(ctx, prog):
+    from rules import scan
+    scan.run(ctx, prog)
     latch.run(ctx, prog, want_c16=True)
     rule = "R-NOSTATE"
     recs = [r for r in prog.records if r["q"].endswith("MsgPackDeserializer") and not r["dependent"]]
